@@ -191,6 +191,16 @@ def _uniquename2(S, spec):
 
 
 def harness(S, spec):
+    if spec.get('engine') == 'custom':
+        # replay of an SMTQ witness: the real encode / decode on its values
+        import c15_smtq
+        w = S.w if S.concrete else {}
+        ok, fname, got = c15_smtq._roundtrip(
+            w.get('kind', 'dnat'), w.get('values', {}).get('chain') or
+            'TM_PREROUTING_DNAT', w.get('values', c15_smtq.DEFAULTS))
+        S.check('C15:rule_file_name_round_trip', ok,
+                {'file_name': fname, 'decoded': got})
+        return
     k = spec['kind']
     if k == 'trace':
         _trace(S, spec)
